@@ -61,10 +61,13 @@ def check_conditional(dist, mu, S, Y, X, x, style):
     xa = styled(list(x), style)
     if style == "array":
         xa = np.array(list(x), dtype=float)
-    r = _g.call(dist.conditional, styled(Y, style), styled(X, style), xa)
+    Ya, Xa = styled(Y, style), styled(X, style)
+    r = _g.call(dist.conditional, Ya, Xa, xa)
     desc = "conditional(Y=%s, X=%s, x=%s) [%s] on mean=%s cov=%s" % (Y, X, list(x), style, Q.fl(mu), Q.fl(S))
     if r[0] != "ok":
         return [("conditional:raises", "%s raised %s" % (desc, r[2]))]
+    if style == "array" and (np.asarray(xa).tolist() != [float(v) for v in x] or np.asarray(Ya).tolist() != list(Y) or np.asarray(Xa).tolist() != list(X)):
+        return [("conditional:argument-modified", "%s changed the arrays it was given (x is now %s): a second use of the same array conditions on other values" % (desc, np.asarray(xa).tolist()))]
     em, ec = Q.conditional(mu, S, Y, X, x)
     d = r[1]
     out = []
